@@ -1,6 +1,7 @@
 import Claripy.Solver.Stack
 import Claripy.Solver.Spec
 import Claripy.Solver.Structure
+import Claripy.Solver.Composite
 import Std.Data.HashMap
 /-! Line-protocol driver for the Solver family (see harness/lib/solverrec.py for the protocol).
 One request per line, one answer per line.  Imports only core-Lean model files. -/
@@ -56,6 +57,9 @@ structure DState where
   world : World := {}
   /-- reference: per frontend the ids of the constraints the USER added -/
   added : Array (List Nat) := #[[]]
+  /-- the CompositeFrontend model (`newc` / `cop`): the composite with its world of children, the constraints its user added -/
+  comp : CSt := {}
+  cadded : List Nat := []
   deriving Inhabited
 
 def hexVal (c : Char) : Nat :=
@@ -342,6 +346,53 @@ def handleOp (d : DState) (args : List String) : DState × String :=
        showOut out ++ " ;; " ++ showWorld w ++ " ;; " ++ (if diags.isEmpty then "-" else ",".intercalate diags))
   | _ => (d, "bad-op")
 
+/-! ### the CompositeFrontend model (Claripy/Solver/Composite.lean) -/
+
+/-- canonical observation of the composite's bookkeeping: the children `_solvers` points to (`_solver_list`), sorted by their
+sorted variable lists; `_unsat`; the composite's own constraint list; the keys of `_solvers`; which of the children (positions in
+the sorted list) are in `_unchecked_solvers` / `_owned_solvers`; then the complete dump of every child (`showWorld`: constraints,
+variables, caches, the Z3 objects they refer to) -/
+def showComp (s : CSt) : String :=
+  let kids := (s.c.solverList.map fun j => (sortNat (s.child j).variables, j)).mergeSort fun a b => lexLe a.1 b.1
+  let pos (p : Nat → Bool) : List Nat := (kids.zipIdx.filter fun x => p x.1.2).map (·.2)
+  let groups := "|".intercalate (kids.map fun k => joinNat k.1)
+  let head := s!"unsat={if s.c.unsat then 1 else 0};own=[{joinNat (s.c.constraints.map Con.id)}];" ++
+    s!"keys=[{joinNat (sortNat (s.c.solvers.map (·.1)))}];groups=[{groups}];un=[{joinNat (pos s.c.unchecked.contains)}];" ++
+    s!"ow=[{joinNat (pos s.c.owned.contains)}]"
+  head ++ " ;; " ++ showWorld { s.w with fes := kids.map fun k => s.child k.2 }
+
+def handleCop (d : DState) (args : List String) : DState × String :=
+  -- cop <name> <args...> ;; <events...>
+  let (opToks, evToks) := args.span (· != ";;")
+  let evToks := evToks.drop 1
+  match parseOp d opToks with
+  | none => (d, "bad-op")
+  | some op =>
+    let events := (evToks.filterMap parseEvent).toArray
+    let badEv := events.size != evToks.length
+    let E := mkEnv d events
+    let s0 : CSt := { d.comp with w := { d.comp.w with tick := 0, qlog := [] } }
+    let (out, s) := compStep E s0 op
+    let cadded := match op with | .add cs => d.cadded ++ cs.map (·.id) | _ => d.cadded
+    let diags := Id.run do
+      let mut ds : List String := []
+      if badEv then ds := ds ++ ["bad-event"]
+      if s.w.tick != events.size then ds := ds ++ [s!"events-consumed={s.w.tick}/{events.size}"]
+      let mut k := s.w.qlog.length
+      for (q, a) in s.w.qlog do
+        k := k - 1
+        if !exactOn d q a then ds := ds ++ [s!"inexact@{k}"]
+      -- the property itself on the model's answer: judged against ALL the constraints the user added to the composite
+      let userCons := cadded.filterMap fun c => (d.cons.get? c).map (·.1)
+      let mk := (userCons ++ op.extra).foldl (fun m c => m &&& zconMask d (ZCon.ofCon c)) d.uni.full
+      let ms := (d.dom.foldl (fun (acc : List Asg × Nat) a => (if mk.testBit acc.2 then a :: acc.1 else acc.1, acc.2 + 1)) ([], 0)).1.reverse
+      match judgeModels ms op out with
+      | none => pure ()
+      | some why => ds := ds ++ ["spec:" ++ why]
+      return ds
+    ({ d with comp := s, cadded := cadded },
+     showOut out ++ " ;; " ++ showComp s ++ " ;; " ++ (if diags.isEmpty then "-" else ",".intercalate diags))
+
 def dispatch (d : DState) (line : String) : DState × String :=
   match (line.trimAscii.toString.splitOn " ").filter (· ≠ "") with
   | "uni" :: args => handleUni d args
@@ -354,6 +405,8 @@ def dispatch (d : DState) (line : String) : DState × String :=
      | some c => ({ d with cls := c, world := World.init (track == "1") (reuse == "1"), added := #[[]] }, "ok")
      | none => (d, "bad-class"))
   | "op" :: args => handleOp d args
+  | ["newc", track] => ({ d with comp := { c := { track := track == "1" }, w := { fes := [], reuse := false } }, cadded := [] }, "ok")
+  | "cop" :: args => handleCop d args
   | ["split", arg] =>
     -- split <vars of constraint 0>|<vars of constraint 1>|...   ("-" = no variables)
     let varss := (arg.splitOn "|").map parseList
